@@ -11,6 +11,7 @@ import common
 import meta
 import popgen
 import t3
+import t4
 
 
 def simulate_w(df, date, targets):
@@ -35,6 +36,7 @@ def run(tier: str) -> int:
     common.build_and_audit(r, ["C05", "C05Sim", "T3"], leanchecker=not quick)
     rnd = common.rng("C05")
     t3.run_t3(r, 1000 * common.seed() + 5, 40 if quick else 600)
+    t4.run_t4_quick(r, common.rng("C05-T4"), quick)
     from _gettsim.config import DEFAULT_TARGETS
     for date in (popgen.DATES_QUICK if quick else popgen.DATES_2015[::2]):
         nodes = popgen.computed_nodes(date)
